@@ -487,6 +487,11 @@ func ruleRoundKind() *Rule {
 					}
 					n++
 					ob := Obligation{Rule: id, Construct: "prevote flag of the round spawned in (*Raft).sendRequestVoteToPeers" + ordSuffix(n), Pos: p.InstrPos(in)}
+					if len(g.Common().Args) < 5 {
+						ob.Verdict, ob.Detail = Undecided, "the signature of sendRequestVote changed (no prevote flag in fifth position): the kind of the round cannot be identified"
+						out = append(out, ob)
+						continue
+					}
 					flag := p.Canon(fr, g.Common().Args[4]).S
 					if flag == fmt.Sprintf("(%d == r.state)", pc) {
 						ob.Verdict, ob.Detail = Discharged, "flag = (r.state == PreCandidate)"
